@@ -93,14 +93,22 @@ func genHosts(r *Rng, c *SrvConf) []*host {
 			h.cid = []byte{byte(i), 1, 2} // too short: ignored
 		case 4:
 			h.cid = []byte{9, 9, 9, byte(i), 7}
+		case 5: // long identifiers that differ only after the 16th byte (RFC 4361 DUID-UUID style)
+			h.cid = append([]byte{0xff, 1, 2, 3, 4, 0, 4, 0xaa, 0xbb, 0xcc, 0xdd, 0xee, 0xff, 0x10, 0x11, 0x12, 0x13, 0x14, 0x15, 0x16, 0x17, 0x18}, byte(i))
 		}
 		hs = append(hs, h)
+	}
+	if len(hs) >= 2 && r.Chance(15) { // two hardware addresses sending one and the same client identifier
+		hs[1].cid = hs[0].cid
 	}
 	for _, cl := range c.Clients { // reserved hosts take part too
 		if r.Chance(70) {
 			h := &host{mac: cl.MAC, staticIP: cl.IP, flags: Pick(r, uint16(0), 0x8000)}
 			if r.Chance(40) {
 				h.cid = []byte{7, 7, 7, 7, cl.MAC[5]}
+			}
+			if len(hs) > 0 && r.Chance(25) { // a reserved host sending the client identifier another host uses
+				h.cid = hs[r.Intn(len(hs))].cid
 			}
 			hs = append(hs, h)
 		}
